@@ -5,10 +5,12 @@ import OjgVerif.JPText.LemmasFrag
 /-! # C14 lemmas: the equation reader reads the text of a raw chain back (any tree size)
 
 `readEq_text`: for every tree `c` of the shape `Eqn.raw` (what `readEq` builds: right-nested chains of
-the 17 infix operators over atoms; atoms are simple constants, `!atom`, `(equation)`, `match(x, y)`,
-`search(x, y)`), every follower `rest` that ends an equation (`eqFollow`) and every fuel of at least
-`eqnSize c`, `readEq` applied to `c.text ++ rest` — also after one leading space — returns `c` and
-`dropSpaces rest`. By structural induction on `c`; no bound on the size. -/
+the 17 infix operators over atoms; atoms are simple constants — int64, booleans, null, Nothing, strings,
+finite floats, regexes `AppendString` leaves alone, flat lists of scalars, filter-free paths —, `!atom`,
+`(equation)`, `match(x, y)`, `search(x, y)`, `length(path)`, `count(path)`), every follower `rest` that ends
+an equation (`eqFollow`) and every fuel of more than `eqnSize c`, `readEq` applied to `c.text ++ rest` —
+also after one leading space — returns `c` and `dropSpaces rest`. By structural induction on `c`; no
+bound on the size. -/
 namespace OjgVerif.JPText
 open OjgVerif
 
@@ -305,12 +307,47 @@ theorem readEqValue_search (rec : P Eqn) (K : Nat) (X : Bytes) :
   simp only [List.cons_append, List.nil_append] at htl ⊢
   simp [readEqValue, dropSpaces, isDigit, htl, hl, bTrueTok, bFalseTok, bNullTok]
 
+theorem readOpArgs_one (rec : P Eqn) (o : Op) (l : Eqn) (X rest : Bytes)
+    (h1 : rec X = some (l, 41 :: rest)) :
+    readOpArgs rec o (40 :: X) = some (.un o l, rest) := by
+  simp [readOpArgs, h1, dropSpaces, peek]
+
+theorem readEqValue_length (rec : P Eqn) (K : Nat) (X : Bytes) :
+    readEqValue rec (K + 1) (Gen.JpOps.op_length.name ++ 40 :: X) = readOpArgs rec Gen.JpOps.op_length (40 :: X) := by
+  have htl : takeLower ([108, 101, 110, 103, 116, 104] ++ 40 :: X) = ([108, 101, 110, 103, 116, 104], 40 :: X) := by
+    simp [takeLower, isLower]
+  have hl : lookupOp [108, 101, 110, 103, 116, 104] = some Gen.JpOps.op_length := by decide
+  simp only [Gen.JpOps.op_length] at hl ⊢
+  simp only [List.cons_append, List.nil_append] at htl ⊢
+  simp [readEqValue, dropSpaces, isDigit, htl, hl, bTrueTok, bFalseTok, bNullTok]
+
+theorem readEqValue_count (rec : P Eqn) (K : Nat) (X : Bytes) :
+    readEqValue rec (K + 1) (Gen.JpOps.op_count.name ++ 40 :: X) = readOpArgs rec Gen.JpOps.op_count (40 :: X) := by
+  have htl : takeLower ([99, 111, 117, 110, 116] ++ 40 :: X) = ([99, 111, 117, 110, 116], 40 :: X) := by
+    simp [takeLower, isLower]
+  have hl : lookupOp [99, 111, 117, 110, 116] = some Gen.JpOps.op_count := by decide
+  simp only [Gen.JpOps.op_count] at hl ⊢
+  simp only [List.cons_append, List.nil_append] at htl ⊢
+  simp [readEqValue, dropSpaces, isDigit, htl, hl, bTrueTok, bFalseTok, bNullTok]
+
 /-! ## the shape `Eqn.raw` -/
 
+theorem isPathVal_raw {l : Eqn} (h : l.isPathVal = true) : l.raw = true ∧ eqnSize l = 1 := by
+  cases l with
+  | val v =>
+    cases v <;> simp [Eqn.isPathVal] at h
+    simp [Eqn.raw, Val.simple, h, eqnSize]
+  | un o l => simp [Eqn.isPathVal] at h
+  | bin o l r => simp [Eqn.isPathVal] at h
+
 theorem raw_un {o : Op} {l : Eqn} (h : (Eqn.un o l).raw = true) :
-    (o = Gen.JpOps.op_not ∧ l.isAtom = true ∧ l.raw = true) ∨ (o = Gen.JpOps.op_group ∧ l.raw = true) := by
+    (o = Gen.JpOps.op_not ∧ l.isAtom = true ∧ l.raw = true) ∨ (o = Gen.JpOps.op_group ∧ l.raw = true) ∨
+    ((o = Gen.JpOps.op_length ∨ o = Gen.JpOps.op_count) ∧ l.isPathVal = true) := by
   simp only [Eqn.raw, Bool.or_eq_true, Bool.and_eq_true, beq_iff_eq] at h
-  exact h
+  rcases h with (h | h) | h
+  · exact Or.inl h
+  · exact Or.inr (Or.inl h)
+  · exact Or.inr (Or.inr h)
 
 theorem raw_bin {o : Op} {l r : Eqn} (h : (Eqn.bin o l r).raw = true) :
     (o.isInfix = true ∧ binOps.contains o = true ∧ l.isAtom = true ∧ l.raw = true ∧ r.raw = true) ∨
@@ -327,10 +364,26 @@ theorem raw_bin {o : Op} {l r : Eqn} (h : (Eqn.bin o l r).raw = true) :
 theorem text_val (v : Val) : (Eqn.val v).text = v.print := rfl
 
 theorem text_not (l : Eqn) : (Eqn.un Gen.JpOps.op_not l).text = 33 :: l.text := by
-  simp [Eqn.text, isCode, Gen.JpOps.op_not, Gen.JpOps.op_group]
+  have h1 : isCode Gen.JpOps.op_not Gen.JpOps.op_group = false := by decide
+  have h2 : isCode Gen.JpOps.op_not Gen.JpOps.op_length = false := by decide
+  have h3 : isCode Gen.JpOps.op_not Gen.JpOps.op_count = false := by decide
+  simp only [Eqn.text, h1, h2, h3, Bool.false_eq_true, Bool.or_self, ↓reduceIte]
+  rfl
 
 theorem text_group (l : Eqn) : (Eqn.un Gen.JpOps.op_group l).text = 40 :: (l.text ++ [41]) := by
   simp [Eqn.text, isCode]
+
+theorem text_length (l : Eqn) :
+    (Eqn.un Gen.JpOps.op_length l).text = Gen.JpOps.op_length.name ++ 40 :: (l.text ++ [41]) := by
+  have h1 : isCode Gen.JpOps.op_length Gen.JpOps.op_group = false := by decide
+  have h2 : isCode Gen.JpOps.op_length Gen.JpOps.op_length = true := by decide
+  simp [Eqn.text, h1, h2]
+
+theorem text_count (l : Eqn) :
+    (Eqn.un Gen.JpOps.op_count l).text = Gen.JpOps.op_count.name ++ 40 :: (l.text ++ [41]) := by
+  have h1 : isCode Gen.JpOps.op_count Gen.JpOps.op_group = false := by decide
+  have h2 : isCode Gen.JpOps.op_count Gen.JpOps.op_count = true := by decide
+  simp [Eqn.text, h1, h2]
 
 theorem text_infix (o : Op) (l r : Eqn) (hi : o.isInfix = true) :
     (Eqn.bin o l r).text = l.text ++ 32 :: (o.name ++ 32 :: r.text) := by
@@ -365,55 +418,524 @@ theorem print_nothing : Val.nothing.print = [78, 111, 116, 104, 105, 110, 103] :
 theorem print_true : (Val.bool true).print = [116, 114, 117, 101] := by simp [Val.print, bTrue]
 theorem print_false : (Val.bool false).print = [102, 97, 108, 115, 101] := by simp [Val.print, bFalse]
 theorem print_str (s : Bytes) : (Val.str s).print = appendString s 39 := by simp [Val.print]
+theorem print_flt (t : Bytes) : (Val.flt t).print = floatPrint t := by simp [Val.print]
+theorem print_regex (s : Bytes) : (Val.regex s).print = appendString s 47 := by simp [Val.print]
+theorem print_expr (x : List Frag) : (Val.expr x).print = Frag.printL false true false x := by simp [Val.print]
+theorem print_list (vs : List Val) : (Val.list vs).print = 91 :: (Val.printL vs ++ [93]) := by simp [Val.print]
 
-/-- a simple constant is read back, whatever the reader of nested equations is -/
-theorem readEqValue_val (v : Val) (hs : v.simple = true) (rec : P Eqn) (K : Nat) (rest : Bytes)
+/-! ### floats -/
+
+theorem takeDigits_spec : ∀ u : Bytes, u = (takeDigits u).1 ++ (takeDigits u).2 ∧ (∀ d ∈ (takeDigits u).1, isDigit d = true) ∧
+    takeDigits (takeDigits u).2 = ([], (takeDigits u).2) := by
+  intro u
+  induction u with
+  | nil => simp [takeDigits]
+  | cons b r ih =>
+    by_cases hb : isDigit b = true
+    · simp only [takeDigits, hb, ↓reduceIte, List.cons_append]
+      refine ⟨by rw [← ih.1], ?_, ih.2.2⟩
+      intro d hd
+      rcases List.mem_cons.mp hd with h | h
+      · rw [h]; exact hb
+      · exact ih.2.1 d h
+    · simp [takeDigits, hb]
+
+/-- the exponent of a `FormatFloat` text: sign and at least two digits -/
+def expOK : Bytes → Bool
+  | s :: ds => (s = 43 || s = 45) && decide (2 ≤ ds.length) && ds.all isDigit
+  | [] => false
+
+/-- `num` ends with `e`; the exponent follows -/
+theorem readNumExp_ok (num r2 rest : Bytes) (h : expOK r2 = true) (hr : atomFollow rest = true) :
+    readNumExp num (r2 ++ rest) = some (.flt (num ++ r2), rest) := by
+  cases r2 with
+  | nil => simp [expOK] at h
+  | cons s ds =>
+    simp only [expOK, Bool.and_eq_true, Bool.or_eq_true, decide_eq_true_eq, List.all_eq_true] at h
+    obtain ⟨⟨hs, hlen⟩, hds⟩ := h
+    have htd := takeDigits_append ds rest hds (takeDigits_follow hr)
+    have hs' : (s = 43 || s = 45) = true := by simpa using hs
+    cases hx : ds ++ rest with
+    | nil =>
+      have : (ds ++ rest).length = 0 := by rw [hx]; rfl
+      rw [List.length_append] at this; omega
+    | cons x y =>
+      simp only [List.cons_append, readNumExp, hs', ↓reduceIte, hx]
+      rw [← hx, htd]
+
+/-- what follows the first digit run in a float text that has a `.` or an exponent -/
+def floatTail : Bytes → Bool
+  | [] => false
+  | c :: r =>
+    if c = 46 then
+      (match (takeDigits r).1, (takeDigits r).2 with
+       | [], _ => false
+       | _ :: _, [] => true
+       | _ :: _, e :: r2 => e = 101 && expOK r2)
+    else c = 101 && expOK r
+
+theorem readNum_float (b : UInt8) (ds1 R1 rest : Bytes) (hds1 : ∀ d ∈ ds1, isDigit d = true)
+    (hR : floatTail R1 = true) (hr : atomFollow rest = true) :
+    readNum b (ds1 ++ (R1 ++ rest)) = some (.flt (b :: (ds1 ++ R1)), rest) := by
+  cases R1 with
+  | nil => simp [floatTail] at hR
+  | cons c r =>
+    simp only [floatTail] at hR
+    by_cases hc : c = 46
+    · subst hc
+      simp only [↓reduceIte] at hR
+      obtain ⟨hsplit, hdig, hstop⟩ := takeDigits_spec r
+      have h1 : takeDigits (ds1 ++ 46 :: (r ++ rest)) = (ds1, 46 :: (r ++ rest)) :=
+        takeDigits_append ds1 _ hds1 (by simp [takeDigits, isDigit])
+      rw [List.cons_append]
+      cases hD : (takeDigits r).1 with
+      | nil => simp [hD] at hR
+      | cons d2 ds2 =>
+        cases hR2 : (takeDigits r).2 with
+        | nil =>
+          rw [hD, hR2] at hsplit
+          simp only [List.append_nil] at hsplit
+          have h2 : takeDigits (r ++ rest) = (r, rest) :=
+            takeDigits_append r rest (by rw [hsplit, ← hD]; exact hdig) (takeDigits_follow hr)
+          simp only [readNum, h1, ↓reduceIte, h2]
+          rcases atomFollow_cases hr with rfl | ⟨x, y, rfl, hx⟩
+          · simp
+          · have e1 : x ≠ 101 := by rcases hx with h | h | h | h <;> (subst h; decide)
+            have e2 : x ≠ 69 := by rcases hx with h | h | h | h <;> (subst h; decide)
+            simp [e1, e2]
+        | cons e r2 =>
+          simp only [hD, hR2, Bool.and_eq_true, decide_eq_true_eq] at hR
+          obtain ⟨he, hexp⟩ := hR
+          subst he
+          rw [hD, hR2] at hsplit
+          have h2 : takeDigits (r ++ rest) = (d2 :: ds2, 101 :: (r2 ++ rest)) := by
+            rw [hsplit, List.append_assoc]
+            exact takeDigits_append (d2 :: ds2) _ (by rw [← hD]; exact hdig) (by simp [takeDigits, isDigit])
+          simp only [readNum, h1, List.cons_append, ↓reduceIte, h2, decide_true]
+          rw [readNumExp_ok _ r2 rest hexp hr, hsplit]
+          simp [List.append_assoc]
+    · simp only [hc, ↓reduceIte, Bool.and_eq_true, decide_eq_true_eq] at hR
+      obtain ⟨he, hexp⟩ := hR
+      subst he
+      have h1 : takeDigits (ds1 ++ 101 :: (r ++ rest)) = (ds1, 101 :: (r ++ rest)) :=
+        takeDigits_append ds1 _ hds1 (by simp [takeDigits, isDigit])
+      rw [List.cons_append]
+      simp only [readNum, h1]
+      simp only [show ¬ (101 : UInt8) = 46 by decide, ↓reduceIte, decide_true]
+      rw [readNumExp_ok _ r rest hexp hr]
+      simp [List.append_assoc]
+
+theorem digits_noForm (u : Bytes) (h : ∀ d ∈ u, isDigit d = true) :
+    u.any (fun b => b = 46 || b = 101 || b = 78 || b = 73) = false := by
+  rw [List.any_eq_false]
+  intro d hd
+  have := isDigit_range (h d hd)
+  have e1 : d ≠ 46 := by intro e; subst e; simp at this
+  have e2 : d ≠ 101 := by intro e; subst e; simp at this
+  have e3 : d ≠ 78 := by intro e; subst e; simp at this
+  have e4 : d ≠ 73 := by intro e; subst e; simp at this
+  simp [e1, e2, e3, e4]
+
+theorem floatLeaf_split (t : Bytes) (h : floatLeaf t = true) :
+    ∃ b ds1 R1, t = b :: (ds1 ++ R1) ∧ (b = 45 ∨ isDigit b = true) ∧ (∀ d ∈ ds1, isDigit d = true) ∧
+      floatTail R1 = true ∧ floatPrint t = t := by
+  simp only [floatLeaf, Bool.and_eq_true, Bool.not_eq_true', beq_iff_eq] at h
+  obtain ⟨hok, hnf, hfp⟩ := h
+  unfold floatTextOk at hok
+  simp only [Bool.or_eq_true, decide_eq_true_eq] at hok
+  rcases hok with ((e | e) | e) | hok
+  · subst e; simp [floatNoForm] at hnf
+  · subst e; simp [floatNoForm] at hnf
+  · subst e; simp [floatNoForm] at hnf
+  · generalize hu : (if List.head? t = some 45 then List.drop 1 t else t) = u at hok
+    have core : ∃ d1 ds1 R1, u = d1 :: (ds1 ++ R1) ∧ isDigit d1 = true ∧ (∀ d ∈ ds1, isDigit d = true) ∧
+        (R1 = [] ∨ floatTail R1 = true) := by
+      obtain ⟨hsplit, hdig, _⟩ := takeDigits_spec u
+      cases hD : (takeDigits u).1 with
+      | nil => simp [hD] at hok
+      | cons d1 ds1 =>
+        rw [hD] at hsplit hdig
+        refine ⟨d1, ds1, (takeDigits u).2, by simpa using hsplit, hdig d1 (by simp),
+          fun x hx => hdig x (by simp [hx]), ?_⟩
+        cases hR : (takeDigits u).2 with
+        | nil => exact Or.inl rfl
+        | cons c r =>
+          right
+          simp only [hD, hR] at hok
+          simp only [floatTail]
+          by_cases hc : c = 46
+          · simp only [hc, ↓reduceIte] at hok ⊢
+            cases hD2 : (takeDigits r).1 with
+            | nil => simp [hD2] at hok
+            | cons d2 ds2 =>
+              cases hR2 : (takeDigits r).2 with
+              | nil => rfl
+              | cons e r2 =>
+                simp only [hD2, hR2] at hok ⊢
+                cases r2 with
+                | nil => simp at hok
+                | cons s ds => simpa [expOK] using hok
+          · simp only [hc, ↓reduceIte] at hok ⊢
+            cases r with
+            | nil => simp at hok
+            | cons s ds => simpa [expOK] using hok
+    obtain ⟨d1, ds1, R1, hu', hd1, hds1, hR1⟩ := core
+    have hprint : ∀ w : Bytes, (∀ d ∈ w, d = 45 ∨ isDigit d = true) → floatPrint w ≠ w := by
+      intro w hw
+      have : w.any (fun b => b = 46 || b = 101 || b = 78 || b = 73) = false := by
+        rw [List.any_eq_false]
+        intro d hd
+        rcases hw d hd with h | h
+        · subst h; decide
+        · have := List.any_eq_false.mp (digits_noForm [d] (by simpa using h)) d (by simp)
+          exact this
+      intro e
+      have := congrArg List.length e
+      simp [floatPrint, ‹w.any _ = false›] at this
+    by_cases h45 : List.head? t = some 45
+    · rw [if_pos h45] at hu
+      cases t with
+      | nil => simp at h45
+      | cons b t' =>
+        have hb : b = 45 := by simpa using h45
+        subst hb
+        simp only [List.drop_succ_cons, List.drop_zero] at hu
+        subst hu
+        rcases hR1 with rfl | hR1
+        · exfalso
+          apply hprint _ _ hfp
+          intro d hd
+          rw [hu'] at hd
+          simp only [List.append_nil, List.mem_cons] at hd
+          rcases hd with h | h | h
+          · exact Or.inl h
+          · exact Or.inr (h ▸ hd1)
+          · exact Or.inr (hds1 d h)
+        · refine ⟨45, d1 :: ds1, R1, by rw [hu']; rfl, Or.inl rfl, ?_, hR1, hfp⟩
+          intro d hd
+          rcases List.mem_cons.mp hd with h | h
+          · exact h ▸ hd1
+          · exact hds1 d h
+    · rw [if_neg h45] at hu
+      subst hu
+      rcases hR1 with rfl | hR1
+      · exfalso
+        apply hprint _ _ hfp
+        intro d hd
+        rw [hu'] at hd
+        simp only [List.append_nil, List.mem_cons] at hd
+        rcases hd with h | h
+        · exact Or.inr (h ▸ hd1)
+        · exact Or.inr (hds1 d h)
+      · exact ⟨d1, ds1, R1, hu', Or.inr hd1, hds1, hR1, hfp⟩
+
+/-! ### regular expressions -/
+
+/-- `readRegex` does not look past the closing `/`: what it reads from `L/` it reads from `L/rest` -/
+theorem readRegex_prefix : ∀ (F : Nat) (L x : Bytes), readRegex F (L ++ [47]) = some (x, []) →
+    ∀ (F' : Nat) (rest : Bytes), F ≤ F' → readRegex F' (L ++ 47 :: rest) = some (x, rest) := by
+  intro F
+  induction F with
+  | zero => intro L x h; simp [readRegex] at h
+  | succ f ih =>
+    intro L x h F' rest hF
+    obtain ⟨F', rfl⟩ : ∃ k, F' = k + 1 := ⟨F' - 1, by omega⟩
+    cases L with
+    | nil =>
+      simp only [List.nil_append, readRegex, ↓reduceIte, Option.some.injEq, Prod.mk.injEq, and_true] at h
+      subst h
+      simp [readRegex]
+    | cons b L' =>
+      simp only [List.cons_append, readRegex] at h ⊢
+      by_cases hb : b = 47
+      · simp [hb] at h
+      · simp only [hb, ↓reduceIte] at h ⊢
+        by_cases hb2 : b = 92
+        · simp only [hb2, ↓reduceIte] at h ⊢
+          cases L' with
+          | nil => simp at h
+          | cons c L'' =>
+            simp only [List.cons_append] at h ⊢
+            cases hx : L'' ++ [47] with
+            | nil => simp at hx
+            | cons y ys =>
+              rw [hx] at h
+              simp only [] at h
+              rw [← hx] at h
+              cases hy : L'' ++ 47 :: rest with
+              | nil => simp at hy
+              | cons z zs =>
+                simp only []
+                rw [← hy]
+                cases hr : readRegex f (L'' ++ [47]) with
+                | none => simp [hr, consFst] at h
+                | some p =>
+                  obtain ⟨x2, rem⟩ := p
+                  rw [hr] at h
+                  simp only [consFst, Option.some.injEq, Prod.mk.injEq] at h
+                  obtain ⟨h1, h2⟩ := h
+                  subst h2
+                  rw [ih L'' x2 hr F' rest (by omega)]
+                  simp [consFst, h1]
+        · simp only [hb2, ↓reduceIte] at h ⊢
+          cases hx : L' ++ [47] with
+          | nil => simp at hx
+          | cons y ys =>
+            rw [hx] at h
+            simp only [] at h
+            rw [← hx] at h
+            cases hy : L' ++ 47 :: rest with
+            | nil => simp at hy
+            | cons z zs =>
+              simp only []
+              rw [← hy]
+              cases hr : readRegex f (L' ++ [47]) with
+              | none => simp [hr, consFst] at h
+              | some p =>
+                obtain ⟨x2, rem⟩ := p
+                rw [hr] at h
+                simp only [consFst, Option.some.injEq, Prod.mk.injEq] at h
+                obtain ⟨h1, h2⟩ := h
+                subst h2
+                rw [ih L' x2 hr F' rest (by omega)]
+                simp [consFst, h1]
+
+theorem regex_facts (s : Bytes) (h : regexDev s = false) :
+    appendString s 47 = 47 :: (s ++ [47]) ∧ readRegex (s.length + 2) (s ++ [47]) = some (s, []) := by
+  simp only [regexDev, Bool.or_eq_false_iff, bne_eq_false_iff_eq] at h
+  obtain ⟨h1, h2⟩ := h
+  refine ⟨by simp [appendString, h1], ?_⟩
+  cases hr : readRegex (s.length + 2) (s ++ [47]) with
+  | none => simp [hr] at h2
+  | some p =>
+    obtain ⟨x, rem⟩ := p
+    rw [hr] at h2
+    cases rem with
+    | nil => simp at h2; rw [h2]
+    | cons _ _ => simp at h2
+
+theorem readEqValue_regex (s : Bytes) (h : regexDev s = false) (rec : P Eqn) (K : Nat) (rest : Bytes) :
+    readEqValue rec (K + 1) ((Val.regex s).print ++ rest) = some (.val (.regex s), rest) := by
+  obtain ⟨h1, h2⟩ := regex_facts s h
+  have h3 := readRegex_prefix _ s s h2 ((s ++ 47 :: rest).length + 1) rest (by simp)
+  rw [print_regex, h1]
+  simp only [List.cons_append, List.append_assoc, List.nil_append]
+  simp only [readEqValue, dropSpaces_cons_ne _ (show (47 : UInt8) ≠ 32 by decide), h3]
+  simp [isDigit]
+
+/-! ### paths -/
+
+theorem img_self (f : Frag) (h : f.selfImg = true) : f.img false = f := by
+  cases f with
+  | wild hs => simp [Frag.selfImg] at h; simp [Frag.img, h]
+  | slice ns =>
+    simp only [Frag.selfImg, Bool.or_eq_true, beq_iff_eq] at h
+    rcases h with h | h
+    · match ns, h with
+      | [a, b], _ => simp [Frag.img, normSlice]
+    · match ns, h with
+      | [a, b, c], _ => simp [Frag.img, normSlice]
+  | _ => rfl
+
+theorem imgL_self : ∀ x : List Frag, x.all Frag.selfImg = true → imgL false x = x := by
+  intro x
+  induction x with
+  | nil => intro _; rfl
+  | cons f r ih =>
+    intro h
+    simp only [List.all_cons, Bool.and_eq_true] at h
+    simp [imgL, img_self f h.1, ih h.2]
+
+theorem pathEnd_of_atomFollow {rest : Bytes} (h : atomFollow rest = true) : pathEnd rest = true := by
+  rcases atomFollow_cases h with rfl | ⟨c, r, rfl, hc⟩
+  · rfl
+  · rcases hc with h | h | h | h <;> (subst h; rfl)
+
+theorem readEqValue_path (x : List Frag) (h : pathLeaf x = true) (rec : P Eqn) (K : Nat) (rest : Bytes)
     (hr : atomFollow rest = true) :
-    readEqValue rec (K + 1) (v.print ++ rest) = some (.val v, rest) := by
+    readEqValue rec (K + 1) ((Val.expr x).print ++ rest) = some (.val (.expr x), rest) ∧
+    1 ≤ (Val.expr x).print.length := by
+  simp only [pathLeaf, Bool.and_eq_true] at h
+  obtain ⟨h1, b, t, he, hb⟩ := readExpr_path (readFilter rec) x h.1 rest (pathEnd_of_atomFollow hr)
+  rw [imgL_self x h.2] at h1
+  rw [print_expr]
+  refine ⟨?_, by rw [he]; simp⟩
+  rw [he] at h1 ⊢
+  rcases hb with rfl | rfl
+  · simp only [List.cons_append] at h1 ⊢
+    simp [readEqValue, dropSpaces, isDigit, h1]
+  · simp only [List.cons_append] at h1 ⊢
+    simp [readEqValue, dropSpaces, isDigit, h1]
+
+/-! ### scalars -/
+
+/-- a scalar constant is read back, whatever the reader of nested equations is; its text starts with a
+byte that is neither a space nor `]` -/
+theorem readEqValue_scalar (v : Val) (hs : v.scalar = true) (rec : P Eqn) (K : Nat) (rest : Bytes)
+    (hr : atomFollow rest = true) :
+    readEqValue rec (K + 1) (v.print ++ rest) = some (.val v, rest) ∧
+    ∃ b t, v.print = b :: t ∧ b ≠ 32 ∧ b ≠ 93 := by
   cases v with
   | int i =>
     obtain ⟨d, ds, he, hd, hn⟩ := readNum_fmtInt i hs rest hr
     rw [print_int, he, List.cons_append]
-    exact readEqValue_num rec K d _ hd _ _ hn
+    exact ⟨readEqValue_num rec K d _ hd _ _ hn, d, ds, rfl, (numHead_ne hd).1, (numHead_ne hd).2.2.2.2.2.2.2.1⟩
   | null =>
     have := takeLower_follow hr
     rw [print_null]
+    refine ⟨?_, _, _, rfl, by decide, by decide⟩
     simp [readEqValue, dropSpaces, isDigit, takeLower, isLower, this, bTrueTok, bFalseTok, bNullTok]
   | nothing =>
     rw [print_nothing]
+    refine ⟨?_, _, _, rfl, by decide, by decide⟩
     simp [readEqValue, dropSpaces, isDigit, matchPrefix, bNothingTok]
   | bool b =>
     have := takeLower_follow hr
     cases b
     · rw [print_false]
+      refine ⟨?_, _, _, rfl, by decide, by decide⟩
       simp [readEqValue, dropSpaces, isDigit, takeLower, isLower, this, bTrueTok, bFalseTok]
     · rw [print_true]
+      refine ⟨?_, _, _, rfl, by decide, by decide⟩
       simp [readEqValue, dropSpaces, isDigit, takeLower, isLower, this, bTrueTok]
   | str s =>
     obtain ⟨t, he, hn⟩ := readStr_appendString s rest
-    rw [print_str, he]
+    rw [print_str]
+    refine ⟨?_, 39, appendStrBody 39 s.length s ++ [39], rfl, by decide, by decide⟩
+    rw [he]
     simp [readEqValue, dropSpaces, isDigit, hn]
-  | flt t => simp [Val.simple] at hs
-  | list vs => simp [Val.simple] at hs
-  | expr x => simp [Val.simple] at hs
-  | regex src => simp [Val.simple] at hs
+  | flt t =>
+    obtain ⟨b, ds1, R1, he, hb, hds1, hR1, hfp⟩ := floatLeaf_split t (by simpa [Val.scalar] using hs)
+    rw [print_flt, hfp]
+    subst he
+    refine ⟨?_, b, ds1 ++ R1, rfl, (numHead_ne hb).1, (numHead_ne hb).2.2.2.2.2.2.2.1⟩
+    have hn := readNum_float b ds1 R1 rest hds1 hR1 hr
+    rw [List.cons_append, List.append_assoc]
+    exact readEqValue_num rec K b _ hb _ _ hn
+  | list vs => simp [Val.scalar] at hs
+  | expr x => simp [Val.scalar] at hs
+  | regex src => simp [Val.scalar] at hs
+
+theorem bodyK_of_atom (rec : P Eqn) (c : Eqn) (bs rest : Bytes) (K : Nat)
+    (h : readEqValue rec K bs = some (c, rest)) (hf : eqFollow rest = true) :
+    bodyK rec K bs = some (c, dropSpaces rest) := by
+  simp only [bodyK, h]
+  exact readEqLoop_stop rec _ c rest (by omega) hf
+
+/-- a scalar constant as a whole equation (a list element) -/
+theorem readEq_scalar (v : Val) (hs : v.scalar = true) (f : Nat) (hf : 1 ≤ f) (rest : Bytes)
+    (hr : eqFollow rest = true) :
+    readEq f (v.print ++ rest) = some (.val v, dropSpaces rest) := by
+  obtain ⟨f, rfl⟩ : ∃ k, f = k + 1 := ⟨f - 1, by omega⟩
+  simp only [readEq, readEqBody_eq]
+  exact bodyK_of_atom _ _ _ rest _
+    (readEqValue_scalar v hs (readEq f) _ rest (atomFollow_of_eqFollow hr)).1 hr
+
+/-! ### lists -/
+
+theorem printL_cons2 (v w : Val) (r : List Val) : Val.printL (v :: w :: r) = v.print ++ 44 :: Val.printL (w :: r) := by
+  simp [Val.printL]
+
+theorem printL_one (v : Val) : Val.printL [v] = v.print := by simp [Val.printL]
+
+theorem readListLoop_scalars (rec : P Eqn)
+    (hrec : ∀ (v : Val), v.scalar = true → ∀ rest, eqFollow rest = true →
+      rec (v.print ++ rest) = some (.val v, dropSpaces rest)) (rest : Bytes) :
+    ∀ (vs : List Val) (F : Nat), vs ≠ [] → vs.length ≤ F → (∀ v ∈ vs, v.scalar = true) →
+    readListLoop rec F (Val.printL vs ++ 93 :: rest) = some (vs, rest) := by
+  intro vs
+  induction vs with
+  | nil => intro F h; exact absurd rfl h
+  | cons v r ih =>
+    intro F _ hF hall
+    obtain ⟨F, rfl⟩ : ∃ k, F = k + 1 := ⟨F - 1, by simp at hF; omega⟩
+    have hv : v.scalar = true := hall v (by simp)
+    obtain ⟨_, b, t, he, _, _⟩ := readEqValue_scalar v hv rec 0 [] rfl
+    cases r with
+    | nil =>
+      have h1 := hrec v hv (93 :: rest) (by simp [eqFollow, dropSpaces, peek])
+      rw [dropSpaces_cons_ne _ (by decide)] at h1
+      rw [printL_one]
+      rw [he, List.cons_append] at h1 ⊢
+      simp [readListLoop, h1, skipSpace, skipSpaceAux, Eqn.resultOf]
+    | cons w r' =>
+      have h1 := hrec v hv (44 :: (Val.printL (w :: r') ++ 93 :: rest)) (by simp [eqFollow, dropSpaces, peek])
+      rw [dropSpaces_cons_ne _ (by decide)] at h1
+      have h2 := ih F (by simp) (by simp at hF ⊢; omega) (fun x hx => hall x (by simp [hx]))
+      rw [printL_cons2, List.append_assoc, List.cons_append]
+      rw [he, List.cons_append] at h1 ⊢
+      simp [readListLoop, h1, skipSpace, skipSpaceAux, Eqn.resultOf, h2, consFst]
+
+theorem printL_length : ∀ vs : List Val, (∀ v ∈ vs, v.scalar = true) → vs.length ≤ (Val.printL vs).length := by
+  intro vs
+  induction vs with
+  | nil => intro _; simp
+  | cons v r ih =>
+    intro hall
+    obtain ⟨_, b, t, he, _, _⟩ := readEqValue_scalar v (hall v (by simp)) (fun _ => none) 0 [] rfl
+    have := ih (fun x hx => hall x (by simp [hx]))
+    cases r with
+    | nil => simp [printL_one, he]
+    | cons w r' =>
+      rw [printL_cons2, he]
+      simp at this ⊢
+      omega
+
+theorem readEqValue_list (vs : List Val) (hs : vs.all Val.scalar = true) (f : Nat) (hf : 1 ≤ f) (K : Nat)
+    (rest : Bytes) :
+    readEqValue (readEq f) (K + 1) ((Val.list vs).print ++ rest) = some (.val (.list vs), rest) := by
+  rw [print_list]
+  simp only [List.cons_append, List.append_assoc, List.nil_append]
+  have hall : ∀ v ∈ vs, v.scalar = true := by simpa using hs
+  cases vs with
+  | nil => simp [readEqValue, dropSpaces, isDigit, Val.printL, peek]
+  | cons v r =>
+    obtain ⟨_, b, t, he, hb1, hb2⟩ := readEqValue_scalar v (hall v (by simp)) (fun _ => none) 0 [] rfl
+    have hloop := fun F hF => readListLoop_scalars (readEq f)
+      (fun v hv rest hr => readEq_scalar v hv f hf rest hr) rest (v :: r) F (by simp) hF hall
+    have hlen := printL_length (v :: r) hall
+    have hhead : ∃ t', Val.printL (v :: r) = b :: t' := by
+      cases r with
+      | nil => exact ⟨t, by rw [printL_one, he]⟩
+      | cons w r' => exact ⟨t ++ 44 :: Val.printL (w :: r'), by rw [printL_cons2, he]; rfl⟩
+    obtain ⟨t', ht'⟩ := hhead
+    have hl2 := hloop ((Val.printL (v :: r) ++ 93 :: rest).length + 1)
+      (by simp only [List.length_cons, List.length_append] at hlen ⊢; omega)
+    rw [ht'] at hl2 ⊢
+    simp only [List.cons_append] at hl2 ⊢
+    simp only [readEqValue, dropSpaces_cons_ne _ (show (91 : UInt8) ≠ 32 by decide), dropSpaces_cons_ne _ hb1, peek, hl2]
+    simp [isDigit, hb2]
+
+/-- a simple constant is read back by `readEqValue` (the elements of a list by `readEq f`, `1 ≤ f`) -/
+theorem readEqValue_val (v : Val) (hs : v.simple = true) (f : Nat) (hf : 1 ≤ f) (K : Nat) (rest : Bytes)
+    (hr : atomFollow rest = true) :
+    readEqValue (readEq f) (K + 1) (v.print ++ rest) = some (.val v, rest) := by
+  cases v with
+  | list vs => exact readEqValue_list vs (by simpa [Val.simple] using hs) f hf K rest
+  | expr x => exact (readEqValue_path x (by simpa [Val.simple] using hs) _ K rest hr).1
+  | regex s => exact readEqValue_regex s (by simpa [Val.simple] using hs) _ K rest
+  | int i => exact (readEqValue_scalar _ (by simpa [Val.simple] using hs) _ K rest hr).1
+  | null => exact (readEqValue_scalar _ (by simp [Val.scalar]) _ K rest hr).1
+  | nothing => exact (readEqValue_scalar _ (by simp [Val.scalar]) _ K rest hr).1
+  | bool b => exact (readEqValue_scalar _ (by simp [Val.scalar]) _ K rest hr).1
+  | str s => exact (readEqValue_scalar _ (by simp [Val.scalar]) _ K rest hr).1
+  | flt t => exact (readEqValue_scalar _ (by simpa [Val.simple] using hs) _ K rest hr).1
 
 theorem print_length (v : Val) (hs : v.simple = true) : 1 ≤ v.print.length := by
+  have sc : ∀ w : Val, w.scalar = true → 1 ≤ w.print.length := by
+    intro w hw
+    obtain ⟨_, b, t, he, _, _⟩ := readEqValue_scalar w hw (fun _ => none) 0 [] rfl
+    rw [he]; simp
   cases v with
-  | int i =>
-    rw [print_int]
-    have := fmtInt_ne_nil i
-    cases h : fmtInt i with
-    | nil => exact absurd h this
-    | cons _ _ => simp
-  | null => simp [print_null]
-  | nothing => simp [print_nothing]
-  | bool b => cases b <;> simp [print_true, print_false]
-  | str s => simp [print_str, appendString]
-  | flt t => simp [Val.simple] at hs
-  | list vs => simp [Val.simple] at hs
-  | expr x => simp [Val.simple] at hs
-  | regex src => simp [Val.simple] at hs
+  | list vs => simp [print_list]
+  | expr x => exact (readEqValue_path x (by simpa [Val.simple] using hs) (fun _ => none) 0 [] rfl).2
+  | regex s => simp [print_regex, appendString]
+  | int i => exact sc _ (by simpa [Val.simple] using hs)
+  | null => exact sc _ (by simp [Val.scalar])
+  | nothing => exact sc _ (by simp [Val.scalar])
+  | bool b => exact sc _ (by simp [Val.scalar])
+  | str s => exact sc _ (by simp [Val.scalar])
+  | flt t => exact sc _ (by simpa [Val.simple] using hs)
 
 /-- every node of a raw tree contributes at least one byte to its text -/
 theorem eqnSize_le_text : ∀ c : Eqn, c.raw = true → eqnSize c ≤ c.text.length := by
@@ -424,11 +946,15 @@ theorem eqnSize_le_text : ∀ c : Eqn, c.raw = true → eqnSize c ≤ c.text.len
     simpa [eqnSize, text_val] using print_length v (by simpa [Eqn.raw] using h)
   | un o l ih =>
     intro h
-    rcases raw_un h with ⟨rfl, _, hl⟩ | ⟨rfl, hl⟩
+    rcases raw_un h with ⟨rfl, _, hl⟩ | ⟨rfl, hl⟩ | ⟨ho, hp⟩
     · have := ih hl
       simp [text_not, eqnSize]; omega
     · have := ih hl
       simp [text_group, eqnSize]; omega
+    · have := ih (isPathVal_raw hp).1
+      rcases ho with rfl | rfl
+      · simp [text_length, eqnSize]; omega
+      · simp [text_count, eqnSize]; omega
   | bin o l r ihl ihr =>
     intro h
     rcases raw_bin h with ⟨hi, _, _, hl, hr⟩ | ⟨_, ho, hl, hr⟩
@@ -443,58 +969,64 @@ theorem eqnSize_le_text : ∀ c : Eqn, c.raw = true → eqnSize c ≤ c.text.len
 
 /-! ## the reader lemma -/
 
-theorem bodyK_of_atom (rec : P Eqn) (c : Eqn) (bs rest : Bytes) (K : Nat)
-    (h : readEqValue rec K bs = some (c, rest)) (hf : eqFollow rest = true) :
-    bodyK rec K bs = some (c, dropSpaces rest) := by
-  simp only [bodyK, h]
-  exact readEqLoop_stop rec _ c rest (by omega) hf
-
 theorem readEq_of_body (l : Eqn) (hlen : eqnSize l ≤ l.text.length)
-    (hP : ∀ (f K : Nat) (rest : Bytes), eqnSize l ≤ f + 1 → eqnSize l ≤ K → eqFollow rest = true →
+    (hP : ∀ (f K : Nat) (rest : Bytes), eqnSize l ≤ f → eqnSize l ≤ K → eqFollow rest = true →
       bodyK (readEq f) K (l.text ++ rest) = some (l, dropSpaces rest))
-    (f : Nat) (rest : Bytes) (hf : eqnSize l ≤ f) (hr : eqFollow rest = true) :
+    (f : Nat) (rest : Bytes) (hf : eqnSize l + 1 ≤ f) (hr : eqFollow rest = true) :
     readEq f (l.text ++ rest) = some (l, dropSpaces rest) ∧
     readEq f (32 :: (l.text ++ rest)) = some (l, dropSpaces rest) := by
-  have := eqnSize_pos l
   obtain ⟨f, rfl⟩ : ∃ k, f = k + 1 := ⟨f - 1, by omega⟩
   simp only [readEq, readEqBody_eq]
   constructor
-  · exact hP f _ rest hf (by simp; omega) hr
+  · exact hP f _ rest (by omega) (by simp; omega) hr
   · rw [bodyK_space]
-    exact hP f _ rest hf (by simp; omega) hr
+    exact hP f _ rest (by omega) (by simp; omega) hr
 
-/-- the two statements proved together: an atom is read by `readEqValue`, a chain by `readEqBody` -/
+/-- the two statements proved together: an atom is read by `readEqValue`, a chain by `readEqBody`; the
+reader of the nested equations is `readEq f` with `f` at least the number of nodes -/
 theorem readEq_core (c : Eqn) : c.raw = true →
-    (c.isAtom = true → ∀ (f K : Nat) (rest : Bytes), eqnSize c ≤ f + 1 → eqnSize c ≤ K → atomFollow rest = true →
+    (c.isAtom = true → ∀ (f K : Nat) (rest : Bytes), eqnSize c ≤ f → eqnSize c ≤ K → atomFollow rest = true →
       readEqValue (readEq f) K (c.text ++ rest) = some (c, rest)) ∧
-    (∀ (f K : Nat) (rest : Bytes), eqnSize c ≤ f + 1 → eqnSize c ≤ K → eqFollow rest = true →
+    (∀ (f K : Nat) (rest : Bytes), eqnSize c ≤ f → eqnSize c ≤ K → eqFollow rest = true →
       bodyK (readEq f) K (c.text ++ rest) = some (c, dropSpaces rest)) := by
   induction c with
   | val v =>
     intro hraw
     have hs : v.simple = true := by simpa [Eqn.raw] using hraw
-    have hQ : ∀ (f K : Nat) (rest : Bytes), eqnSize (Eqn.val v) ≤ f + 1 → eqnSize (Eqn.val v) ≤ K →
+    have hQ : ∀ (f K : Nat) (rest : Bytes), eqnSize (Eqn.val v) ≤ f → eqnSize (Eqn.val v) ≤ K →
         atomFollow rest = true → readEqValue (readEq f) K ((Eqn.val v).text ++ rest) = some (Eqn.val v, rest) := by
-      intro f K rest _ hK hr
+      intro f K rest hf hK hr
       obtain ⟨K, rfl⟩ : ∃ k, K = k + 1 := ⟨K - 1, by simp [eqnSize] at hK; omega⟩
       rw [text_val]
-      exact readEqValue_val v hs _ K rest hr
+      exact readEqValue_val v hs f (by simpa [eqnSize] using hf) K rest hr
     exact ⟨fun _ => hQ, fun f K rest hf hK hr =>
       bodyK_of_atom _ _ _ rest K (hQ f K rest hf hK (atomFollow_of_eqFollow hr)) hr⟩
   | un o l ih =>
     intro hraw
-    have hQ : ∀ (f K : Nat) (rest : Bytes), eqnSize (Eqn.un o l) ≤ f + 1 → eqnSize (Eqn.un o l) ≤ K →
+    have hQ : ∀ (f K : Nat) (rest : Bytes), eqnSize (Eqn.un o l) ≤ f → eqnSize (Eqn.un o l) ≤ K →
         atomFollow rest = true → readEqValue (readEq f) K ((Eqn.un o l).text ++ rest) = some (Eqn.un o l, rest) := by
       intro f K rest hf hK hr
       obtain ⟨K, rfl⟩ : ∃ k, K = k + 1 := ⟨K - 1, by simp [eqnSize] at hK; omega⟩
       simp only [eqnSize] at hf hK
-      rcases raw_un hraw with ⟨rfl, hla, hl⟩ | ⟨rfl, hl⟩
+      rcases raw_un hraw with ⟨rfl, hla, hl⟩ | ⟨rfl, hl⟩ | ⟨ho, hp⟩
       · rw [text_not, List.cons_append]
         exact readEqValue_not _ K _ l rest ((ih hl).1 hla f K rest (by omega) (by omega) hr)
       · rw [text_group, List.cons_append, List.append_assoc, List.singleton_append]
         have hrd := (readEq_of_body l (eqnSize_le_text l hl) (ih hl).2 f (41 :: rest) (by omega) (by simp [eqFollow, dropSpaces, peek])).1
         rw [dropSpaces_cons_ne rest (by decide)] at hrd
         exact readEqValue_group _ K _ l rest hrd
+      · obtain ⟨hl, _⟩ := isPathVal_raw hp
+        have hrd := (readEq_of_body l (eqnSize_le_text l hl) (ih hl).2 f (41 :: rest) (by omega) (by simp [eqFollow, dropSpaces, peek])).1
+        rw [dropSpaces_cons_ne rest (by decide)] at hrd
+        rcases ho with rfl | rfl
+        · rw [text_length]
+          have e : Gen.JpOps.op_length.name ++ 40 :: (l.text ++ [41]) ++ rest =
+              Gen.JpOps.op_length.name ++ 40 :: (l.text ++ 41 :: rest) := by simp [List.append_assoc]
+          rw [e, readEqValue_length, readOpArgs_one _ _ l _ rest hrd]
+        · rw [text_count]
+          have e : Gen.JpOps.op_count.name ++ 40 :: (l.text ++ [41]) ++ rest =
+              Gen.JpOps.op_count.name ++ 40 :: (l.text ++ 41 :: rest) := by simp [List.append_assoc]
+          rw [e, readEqValue_count, readOpArgs_one _ _ l _ rest hrd]
     exact ⟨fun _ => hQ, fun f K rest hf hK hr =>
       bodyK_of_atom _ _ _ rest K (hQ f K rest hf hK (atomFollow_of_eqFollow hr)) hr⟩
   | bin o l r ihl ihr =>
@@ -516,7 +1048,7 @@ theorem readEq_core (c : Eqn) : c.raw = true →
       rw [readEqLoop_infix (readEq f) o ho hi l r (r.text ++ rest) (dropSpaces rest) _ (by simp) hrd
         (by rw [eqFollow_dropSpaces]; exact hfol), dropSpaces_idem]
     · -- a call `match(l, r)` / `search(l, r)`
-      have hQ : ∀ (f K : Nat) (rest : Bytes), eqnSize (Eqn.bin o l r) ≤ f + 1 → eqnSize (Eqn.bin o l r) ≤ K →
+      have hQ : ∀ (f K : Nat) (rest : Bytes), eqnSize (Eqn.bin o l r) ≤ f → eqnSize (Eqn.bin o l r) ≤ K →
           atomFollow rest = true → readEqValue (readEq f) K ((Eqn.bin o l r).text ++ rest) = some (Eqn.bin o l r, rest) := by
         intro f K rest hf hK _
         obtain ⟨K, rfl⟩ : ∃ k, K = k + 1 := ⟨K - 1, by simp [eqnSize] at hK; omega⟩
@@ -544,10 +1076,11 @@ theorem readEq_core (c : Eqn) : c.raw = true →
       exact ⟨fun _ => hQ, fun f K rest hf hK hr =>
         bodyK_of_atom _ _ _ rest K (hQ f K rest hf hK (atomFollow_of_eqFollow hr)) hr⟩
 
-/-- **The equation reader reads the text of every raw chain back**, whatever its size: with fuel of at
-least the number of nodes, `readEq` applied to the text of `c` followed by an equation terminator (also
-after one leading space) returns `c` and the terminator with its leading spaces removed. -/
-theorem readEq_text : ∀ (c : Eqn), c.raw = true → ∀ (f : Nat) (rest : Bytes), eqnSize c ≤ f → eqFollow rest = true →
+/-- **The equation reader reads the text of every raw chain back**, whatever its size: with fuel of more
+than the number of nodes, `readEq` applied to the text of `c` followed by an equation terminator (also
+after one leading space) returns `c` and the terminator with its leading spaces removed. (One more than
+the number of nodes because the elements of a list constant are read as equations of their own.) -/
+theorem readEq_text : ∀ (c : Eqn), c.raw = true → ∀ (f : Nat) (rest : Bytes), eqnSize c + 1 ≤ f → eqFollow rest = true →
     readEq f (c.text ++ rest) = some (c, dropSpaces rest) ∧
     readEq f (32 :: (c.text ++ rest)) = some (c, dropSpaces rest) :=
   fun c hraw f rest hf hr => readEq_of_body c (eqnSize_le_text c hraw) (readEq_core c hraw).2 f rest hf hr
@@ -564,14 +1097,13 @@ theorem bodyK_spaces (rec : P Eqn) (K n : Nat) (bs : Bytes) :
   | succ n ih => rw [List.replicate_succ, List.cons_append, bodyK_space, ih]
 
 /-- `readEq_text` after any number of leading spaces -/
-theorem readEq_text_spaces (c : Eqn) (hraw : c.raw = true) (f : Nat) (rest : Bytes) (hf : eqnSize c ≤ f)
+theorem readEq_text_spaces (c : Eqn) (hraw : c.raw = true) (f : Nat) (rest : Bytes) (hf : eqnSize c + 1 ≤ f)
     (hr : eqFollow rest = true) (n : Nat) :
     readEq f (List.replicate n 32 ++ (c.text ++ rest)) = some (c, dropSpaces rest) := by
-  have := eqnSize_pos c
   have hlen := eqnSize_le_text c hraw
   obtain ⟨f, rfl⟩ : ∃ k, f = k + 1 := ⟨f - 1, by omega⟩
   simp only [readEq, readEqBody_eq]
   rw [bodyK_spaces]
-  exact (readEq_core c hraw).2 f _ rest hf (by simp; omega) hr
+  exact (readEq_core c hraw).2 f _ rest (by omega) (by simp; omega) hr
 
 end OjgVerif.JPText
